@@ -9,6 +9,9 @@ class SpecC13(e3_driver.Spec):
     classes = ['Union']
     profile = dict(max_len=8, w_split=3, w_trim=3, w_sample=2, w_restart=0,
                    w_update=0)
+    # (the numerically degenerate clouds are C07's subject only)
+    clouds = ['blob', 'two', 'three', 'elongated', 'curved', 'face', 'corner',
+              'wrapped', 'fill', 'many', 'triangles']
     chunk = 25
     runs = dict(quick=2400, thorough=40000)
     d_max = 6
